@@ -5,7 +5,7 @@ pub mod track_distance;
 use crate::prelude::TrackBuilder;
 use crate::track::notify::{ChangeNotifier, NoopNotifier};
 use crate::track::{
-    Feature, Observation, ObservationAttributes, ObservationMetric, ObservationMetricOk, Track,
+    Feature, ObservationAttributes, ObservationMetric, ObservationMetricOk, Track,
     TrackAttributes, TrackStatus,
 };
 use crate::Errors;
@@ -553,21 +553,18 @@ where
         #[allow(clippy::significant_drop_in_scrutinee)]
         match tracks.get_mut(&track_id) {
             None => {
-                let mut t = Track {
-                    notifier: self.notifier.clone(),
-                    attributes: self.default_attributes.clone(),
+                let mut t = Track::new(
                     track_id,
-                    observations: HashMap::from([(
-                        feature_class,
-                        vec![Observation(feature_attribute, feature)],
-                    )]),
-                    metric: self.metric.clone(),
-                    merge_history: vec![track_id],
-                };
-                if let Some(attributes_update) = &attributes_update {
-                    t.update_attributes(attributes_update)?;
-                }
-
+                    self.metric.clone(),
+                    self.default_attributes.clone(),
+                    self.notifier.clone(),
+                );
+                t.add_observation(
+                    feature_class,
+                    feature_attribute,
+                    feature,
+                    attributes_update,
+                )?;
                 tracks.insert(track_id, t);
             }
             Some(track) => {
